@@ -381,6 +381,8 @@ pub enum Expect
 {
 	Accept(String),
 	Reject,
+	/// whether the program is accepted is not prescribed; if it is, it must print this
+	IfAccepted(String),
 }
 
 fn private_block(present: u8, secret: i32, hidden_members: &str, hidden_literal: &str) -> (String, String)
@@ -534,6 +536,43 @@ pub fn scenarios() -> Vec<Scenario>
 			files: vec![("m0.pn".into(), m0), ("m1.pn".into(), m1), ("m2.pn".into(), m2), ("m3.pn".into(), m1b)],
 			expect: Expect::Accept(format!("own={expected}\nz=4\n")),
 		});
+	}
+	// (4) names of the importer must not be captured by what it imports
+	{
+		let lib = "const B: i32 = 5;\npub const A: i32 = B * 2;\npub fn lib_a() -> i32\n{\n\treturn: A\n}\n".to_string();
+		for own in [true, false]
+		{
+			let main = format!("import \"m1.pn\";\n\n{}fn main() -> u8\n{{\n\tprint!(\"A=\", A, \" lib=\", lib_a(), \"\\n\");\n\treturn: 0\n}}\n", if own { "const B: i32 = 100;\n" } else { "" });
+			out.push(Scenario {
+				name: format!("public constant defined through a private constant{}", if own { ", importer has a constant of the same name" } else { "" }),
+				class: "importer names captured:value of a public constant",
+				files: vec![("m0.pn".into(), main), ("m1.pn".into(), lib.clone())],
+				expect: Expect::IfAccepted("A=10 lib=10\n".to_string()),
+			});
+		}
+		let lib = "const N: usize = 2;\npub struct S\n{\n\ta: [N]i32,\n\tb: i32,\n}\npub fn sum(s: S) -> i32\n{\n\treturn: s.a[0] + s.a[1] + s.b\n}\npub fn size_in_lib() -> usize\n{\n\treturn: |:S|\n}\n".to_string();
+		for own in [true, false]
+		{
+			let main = format!("import \"m1.pn\";\n\n{}fn main() -> u8\n{{\n\tvar s: S = S {{ a: [1, 2], b: 5 }};\n\tprint!(\"sum=\", sum(s), \" sizes \", |:S|, \" \", size_in_lib(), \"\\n\");\n\treturn: 0\n}}\n", if own { "const N: usize = 4;\n" } else { "" });
+			out.push(Scenario {
+				name: format!("public structure sized by a private constant{}", if own { ", importer has a constant of the same name" } else { "" }),
+				class: "importer names captured:array length in a public structure",
+				files: vec![("m0.pn".into(), main), ("m1.pn".into(), lib.clone())],
+				expect: Expect::IfAccepted("sum=8 sizes 12 12\n".to_string()),
+			});
+		}
+		// a structure of the importer with the name of a private structure used in a public signature
+		let lib = "struct Inner\n{\n\tv: i32,\n}\npub struct Outer\n{\n\tinner: Inner,\n\tw: i32,\n}\npub fn outer_size() -> usize\n{\n\treturn: |:Outer|\n}\n".to_string();
+		for own in [true, false]
+		{
+			let main = format!("import \"m1.pn\";\n\n{}fn main() -> u8\n{{\n\tprint!(\"sizes \", |:Outer|, \" \", outer_size(), \"\\n\");\n\treturn: 0\n}}\n", if own { "struct Inner\n{\n\tv: i64,\n\tx: i64,\n}\n" } else { "" });
+			out.push(Scenario {
+				name: format!("public structure with a member of a private structure type{}", if own { ", importer has a structure of the same name" } else { "" }),
+				class: "importer names captured:member type in a public structure",
+				files: vec![("m0.pn".into(), main), ("m1.pn".into(), lib.clone())],
+				expect: Expect::IfAccepted("sizes 8 8\n".to_string()),
+			});
+		}
 	}
 	// (3) private items of every kind referenced from the importer
 	let privates: [(&str, &str, &str); 5] = [
@@ -692,10 +731,11 @@ pub fn work(spec: &Value, w: &mut WorkerCtx)
 			judge_history(&files, case["what"].as_str().unwrap_or(""), w);
 			return;
 		}
-		let expect = match case["expect_out"].as_str()
+		let expect = match (case["expect_out"].as_str(), case["expect_out"]["if_accepted"].as_str())
 		{
-			Some(s) => Expect::Accept(s.to_string()),
-			None => Expect::Reject,
+			(Some(s), _) => Expect::Accept(s.to_string()),
+			(_, Some(s)) => Expect::IfAccepted(s.to_string()),
+			_ => Expect::Reject,
 		};
 		judge(&files, perm, &expect, case["class"].as_str().unwrap_or(""), case["what"].as_str().unwrap_or(""), w);
 		return;
@@ -986,6 +1026,7 @@ fn expect_json(e: &Expect) -> Value
 	match e
 	{
 		Expect::Accept(s) => json!(s),
+		Expect::IfAccepted(s) => json!({"if_accepted": s}),
 		Expect::Reject => Value::Null,
 	}
 }
@@ -1034,7 +1075,14 @@ fn judge(files: &[(String, String)], perm: Option<usize>, expect: &Expect, class
 			w.result.validated += 1;
 			match (&v, expect)
 			{
-				(Verdict::Ok { .. }, Expect::Accept(want)) =>
+				(Verdict::Rejected { diags, .. }, Expect::IfAccepted(_)) =>
+				{
+					let mut codes: Vec<u16> = diags.iter().map(|d| d.code).collect();
+					codes.sort();
+					codes.dedup();
+					w.result.outcome(&format!("{class}:rejected (not prescribed):{codes:?}"));
+				}
+				(Verdict::Ok { .. }, Expect::Accept(want)) | (Verdict::Ok { .. }, Expect::IfAccepted(want)) =>
 				{
 					let (status, signal, stdout, stderr) = exec.unwrap();
 					if status != Some(0) || &stdout != want
